@@ -205,7 +205,7 @@ func NewFeas(prelude string) *Feas {
 }
 
 func (f *Feas) start() {
-	cmd := exec.Command("z3-new", "-in", "-t:1500")
+	cmd := exec.Command("z3-new", "-in", "-t:300")
 	in, _ := cmd.StdinPipe()
 	out, _ := cmd.StdoutPipe()
 	cmd.Stderr = io.Discard
@@ -242,6 +242,14 @@ func (f *Feas) Feasible(pc []*Term) bool {
 	f.mu.Lock()
 	defer f.mu.Unlock()
 	f.calls++
+	// quantified facts are dropped: a weaker path condition only makes pruning less precise
+	var qf []*Term
+	for _, t := range pc {
+		if !t.hasQ {
+			qf = append(qf, t)
+		}
+	}
+	pc = qf
 	vars, ufs, _, _ := collect(pc)
 	var sb strings.Builder
 	for _, n := range ufs {
